@@ -388,6 +388,7 @@ var panicExemptions = map[string]string{
 	"assert|(core.ThingSlice).Less|string":                                  "Less is reached only through sort.Sort on a ThingSlice built by AsThingSlice, which refuses heterogeneous slices (IsSortable); the first element's type switch therefore decides all",
 	"assert|(core.ThingSlice).Less|float64":                                 "see ThingSlice.Less / string",
 	"assert|(core.ThingSlice).Less|int":                                     "see ThingSlice.Less / string",
+	"assert|(core.ThingSlice).Less|bool":                                    "see ThingSlice.Less / string (the case was added by the LESS-COVERS repair)",
 	"assert|sys.GetStorage|string":                                          "start-up configuration value supplied by the embedder, not request input",
 	"assert|(*service.Service).ProcessRequest|float64":                      "/api/sys/admin/* operator endpoint, outside the location API the property is about",
 	"panic|(*service.Service).ProcessRequest":                               "/api/sys/admin/panic exists to panic on purpose (operator endpoint)",
